@@ -512,3 +512,26 @@ def final_solution_satisfies_the_applied_collapse(ctx):
     """a collapse is applied by installing new constraints between iterations; the final solution satisfies it only if the solver's stored all-time best does not outlive that change (shared with C03.f)"""
     from .c03 import best_survives_a_change_of_constraints
     best_survives_a_change_of_constraints(ctx)
+
+
+@rule('C11.n', min_instances=1)
+def cost_collapse_regions_end_at_samples(ctx):
+    """collapse_cost reports the regions to keep as intervals between recorded parameter values: every edge it builds is par[<index>] with the gap length d added to the INDEX (par[w + d]) - interior regions, and the region above the last high-cost interval alike; a gap length added to the parameter VALUE (par[w] + d) puts that edge at value + number of samples, which removes minimum-cost samples or keeps a whole high-cost interval"""
+    f = ctx.func(CL + ':collapse_cost')
+    edges = []
+    for st in stmts_of(f.node):
+        if isinstance(st, ast.Assign) and len(st.targets) == 1 and isinstance(st.targets[0], ast.Name) and st.targets[0].id in ('bounds', 'bounds_', '_bounds'):
+            for n in ast.walk(st.value):
+                if isinstance(n, ast.BinOp) and isinstance(n.op, ast.Add):
+                    # an addition whose operand is a subscript of par: value arithmetic
+                    for side in (n.left, n.right):
+                        if isinstance(side, ast.Subscript) and isinstance(side.value, ast.Name) and side.value.id == 'par':
+                            edges.append(('value-arith', st, n))
+                if isinstance(n, ast.Subscript) and isinstance(n.value, ast.Name) and n.value.id == 'par':
+                    edges.append(('index', st, n))
+    idx = [e for e in edges if e[0] == 'index']
+    bad = [e for e in edges if e[0] == 'value-arith']
+    ctx.need(len(idx) >= 3, 'collapse_cost: expected >= 3 region edges taken from par[...], found %d' % len(idx))
+    ctx.check(not bad, 'collapse_cost#edges', 'every region edge is par[<index>] (%d edges)' % len(idx),
+              'collapse_cost builds a region edge as %s: the gap length is added to the parameter value instead of the sample index'
+              % (unparse(bad[0][2])[:60] if bad else ''), f, bad[0][1] if bad else idx[0][1], statement='region edge = parameter value + gap length')
